@@ -190,6 +190,26 @@ static inline bool double_keyeq(double a, double b) { return a == b; }
 
 /* ---------------------------------------------------------------- iterators ------------- */
 /* (container pointer, position).  *it asserts position < size (dereferencing end() is UB). */
+/* v.at(i) / v[i] as lvalue expressions (the assertion stands for std::out_of_range / UB) */
+#define VEC_AT(T, v, i) ((v)->d[vec_checked_index((i), (v)->n, 1)])
+#define VEC_INDEX(T, v, i) ((v)->d[vec_checked_index((i), (v)->n, 0)])
+static inline size_t vec_checked_index(size_t i, size_t n, bool at)
+{
+    if (at)
+        MODEL_ASSERT(i < n, "std::vector::at: index out of range (std::out_of_range)");
+    else
+        MODEL_ASSERT(i < n, "std::vector::operator[]: index out of range (undefined behaviour)");
+    return i;
+}
+
+/* *it as an lvalue expression; dereferencing end() is undefined behaviour */
+#define VIT_DEREF(it) ((it).v->d[vit_checked_index((it).i, (it).v->n)])
+static inline size_t vit_checked_index(size_t i, size_t n)
+{
+    MODEL_ASSERT(i < n, "iterator dereferenced at or past end()");
+    return i;
+}
+
 #define VIT_DECL(NAME, CONT)                                                                  \
     typedef struct                                                                            \
     {                                                                                         \
@@ -210,7 +230,7 @@ static inline bool double_keyeq(double a, double b) { return a == b; }
     static inline NAME NAME##_find(NAME first, NAME last, CONT##_elem_t x)                    \
     {                                                                                         \
         for (; first.i != last.i; ++first.i)                                                  \
-            if (CONT##_elem_eq(CONT##_data(first.v)[first.i], x))                             \
+            if (CONT##_elem_eq(first.v->d[first.i], x))                                       \
                 return first;                                                                 \
         return last;                                                                          \
     }                                                                                         \
@@ -219,6 +239,13 @@ static inline bool double_keyeq(double a, double b) { return a == b; }
     static inline NAME CONT##_cbegin(const CONT *c) { return (NAME){(CONT *)c, 0}; }          \
     static inline NAME CONT##_cend(const CONT *c) { return (NAME){(CONT *)c, CONT##_size(c)}; }
 
+/* std::copy(first, last, std::back_inserter(dst)) between vectors of the same element type */
+#define COPY_BACK_DECL(IT, DST)                                                               \
+    static inline void IT##_copy_back_##DST(IT first, IT last, DST *dst)                      \
+    {                                                                                         \
+        for (; first.i != last.i; ++first.i)                                                  \
+            DST##_push_back(dst, VIT_DEREF(first));                                           \
+    }
 #define VSTR_IT_OPS(NAME, IT)
 #define VMAP_IT_OPS(NAME, IT)                                                                 \
     static inline IT NAME##_find(const NAME *m, NAME##_key_t k) { return (IT){(NAME *)m, NAME##_find_pos(m, k)}; }
@@ -236,6 +263,14 @@ static inline bool double_keyeq(double a, double b) { return a == b; }
     {                                                                                         \
         NAME r;                                                                               \
         r.n = 0;                                                                              \
+        return r;                                                                             \
+    }                                                                                         \
+    static inline NAME NAME##_sized(size_t n)                                                 \
+    {                                                                                         \
+        NAME r;                                                                               \
+        MODEL_BOUND(n <= VVEC_CAP);                                                           \
+        r.n = n;                                                                              \
+        memset(r.d, 0, sizeof(r.d)); /* value-initialised elements */                         \
         return r;                                                                             \
     }                                                                                         \
     static inline size_t NAME##_size(const NAME *v) { return v->n; }                         \
@@ -284,6 +319,12 @@ static inline bool double_keyeq(double a, double b) { return a == b; }
 
 /* iterator-taking members are defined once the iterator type exists */
 #define VVEC_IT_OPS(NAME, IT)                                                                 \
+    static inline void IT##_iota(IT first, IT last, NAME##_elem_t v0)                         \
+    {                                                                                         \
+        for (; first.i != last.i; ++first.i)                                                  \
+            first.v->d[first.i] = v0++;                                                       \
+    }                                                                                         \
+    COPY_BACK_DECL(IT, NAME)                                                                  \
     static inline IT NAME##_erase_1(NAME *v, IT it)                                           \
     {                                                                                         \
         NAME##_erase_pos(v, it.i);                                                            \
@@ -373,6 +414,12 @@ static inline bool double_keyeq(double a, double b) { return a == b; }
 #define HEAP_N 8
 #endif
 #define HEAP_FIELD(T, NAME) T NAME[HEAP_N];
+/* exact containers carry no pointers: arbitrary length and content */
+#define HAVOC_CONTAINER_FIELD(F, T)                                                           \
+    for (unsigned k = 0; k < HEAP_N; ++k) {                                                   \
+        T nondet_##T(void);                                                                   \
+        F[k] = nondet_##T(); /* typed havoc (byte-wise havoc of padded structs is imprecise) */ \
+    }
 /* address of an object (reinterpret_cast<uintptr_t>): arbitrary; the harness states what it
  * assumes about it (injective, aligned)                                                     */
 extern uintptr_t __addr[HEAP_N];
